@@ -125,6 +125,11 @@ def make_source(rng, sc, zone, sign, zones=None, amax=9.0, limit_overlap=True):
     a_px = rng.uniform(1.5, amax)
     ratio = 1.0 if rng.random() < 0.1 else rng.uniform(0.3, 1.0)
     pa = rng.choice([0.0, 90.0, -90.0, 180.0, 45.0]) if rng.random() < 0.15 else rng.uniform(-180, 180)
+    # catalogues often hold several sources with bit-identical catalogued shapes (e.g. unresolved
+    # sources = the beam); their pixel-space shapes still differ with position
+    if sc.get("last_shape") is not None and rng.random() < 0.35 and sc["last_shape"][0] <= amax:
+        a_px, ratio, pa = sc["last_shape"]
+    sc["last_shape"] = (a_px, ratio, pa)
     peak = sign * rng.uniform(0.5, 5.0)
     for _ in range(60):
         if zone == "sky":
